@@ -233,7 +233,7 @@ def check_csv(tree, blob, d, rng, fail):
     if header != cols:
         fail('csv-columns' + tag, f'{header} != {cols}')
     if len(rows) != len(blob['results']):
-        fail('csv-rows', f"{len(rows)} rows for {len(blob['results'])} cells")
+        fail('csv-rows' + tag, f"{len(rows)} rows for {len(blob['results'])} cells")
         return
     for row, cell in zip(rows, blob['results']):
         rec = dict(zip(header, row))
@@ -247,7 +247,8 @@ def check_csv(tree, blob, d, rng, fail):
             exp[f'{rd}_{clabel}'] = '%.4f' % cell[lv][ckey]
         for k_, v_ in exp.items():
             if rec.get(k_) != v_:
-                fail('csv-rows', f'cell {cell["cell_id"]!r} column {k_!r}: {rec.get(k_)!r} != {v_!r}')
+                # (with S-15 the surviving columns are also turned into categories, which defeats '%.4f')
+                fail('csv-rows' + tag, f'cell {cell["cell_id"]!r} column {k_!r}: {rec.get(k_)!r} != {v_!r}')
 
 
 def check_tree(tree_data, fail):
